@@ -705,7 +705,7 @@ func episodeOpts(ep int) epOpts {
 func inChild(o epOpts) bool { return o.Compress || o.Alloc == "client" }
 
 func runEpisodes(r *Run, o *vlib.Oracle) {
-	nEp := r.N(12, 220)
+	nEp := r.N(12, 200)
 	for ep := 0; ep < nEp; ep++ {
 		g := r.Rng.Fork()
 		if inChild(episodeOpts(ep)) {
